@@ -79,6 +79,7 @@ struct VecType {
   bool limitThrows = true;    // exceeding the limit throws (false: UncheckedGrowingPolicy -> never generated)
   size_t objSize = 0, objAlign = 0, elemSize = 0;
   bool elemTriv = false, elemTR = false, elemHooks = false, elemNoexceptMove = true, elemArith = false;
+  int ledgerMode = 0;         // ledger objects per element: 0 one, 1 two (pair), 2 one unless the value is (0,0) (nested container)
   bool claimsTR = false;      // the container declares itself trivially relocatable
   bool sizeSigned = false;
   unsigned sizeTypeId = 0;    // sizeof(size_type) * 2 + signedness: equal ids = same size_type
